@@ -1,6 +1,7 @@
-"""C02 - scalar arithmetic mod l, canonical output.  NOT decided: that the limb kernels (mul_internal, montgomery_reduce,
-add, sub) compute the exact value (that is a statement about numerical results).  Decided here, each a necessary
-condition of the statement:
+"""C02 - scalar arithmetic mod l, canonical output.  NOT decided: that the limb kernels add, sub (and with them the final
+conditional subtraction of montgomery_reduce) compute the exact value (assumption A1).  mul_internal / square_internal are decided
+exact and montgomery_reduce is decided to divide by R modulo l up to that subtraction (KERNEL, polynomial limb domain).  Decided
+here, each a necessary condition of the statement:
 
  MAGNITUDE  every call of montgomery_reduce, in every context reachable from the public Scalar API, receives a value
             below l * R (R = 2^260 / 2^261): only then does its single conditional subtraction return the canonical
@@ -195,13 +196,54 @@ def mont(F, R, I):
                     bad.append("n=%d: element %d becomes %s, expected its inverse" % (k, i, show(got) if got is not None and got[0] == "fe" else "?"))
         (R.viol if bad else R.ok)("C02.mont", I("Scalar::batch_invert"), bad[0] if bad else "slices of 0..4 non-zero scalars: every entry becomes its inverse, the return value is the inverse of the product",
                                   *((F.loc(f),) if bad else ()))
-    R.floor("C02.mont", I("scalar operations decided in the Montgomery-radix domain"), n, 11)
+    # Sum / Product over iterators of 0..3 symbolic scalars: the fold returns the ring sum / product (round-7 seed C02.7: a hand-written
+    # wide accumulator in Sum that loses a carry; the only forms decided are compositions of the Scalar ring operations)
+    from absint import I as Iv2
+    from eng_formula import fconst as fc2
+    for nm, rx, op, unit in (("Scalar::sum", r"scalar::Scalar as core::iter::Sum<T>>::sum$", fadd, 0), ("Scalar::product", r"scalar::Scalar as core::iter::Product<T>>::product$", fmul, 1)):
+        f = one(rx)
+        if f is None:
+            R.anchor_missing("C02.mont", I(nm), "function not found")
+            continue
+        n += 1
+        bad = []
+        for k in range(4):
+            xs = [fvar("x%d" % i) for i in range(k)]
+            try:
+                ret, ip, root = MT.run(F, f, [("it", "vals", ("arr", tuple(xs)), Iv2(0), Iv2(k))])
+            except Exception as e:
+                bad.append("n=%d: analysis failed: %r" % (k, e))
+                continue
+            if k == 0:
+                v = ret
+                while v is not None and v[0] == "st" and len(v[1]) == 1:
+                    v = v[1][0]
+                okk = v is not None and v[0] == "arr" and len(v[1]) == 32 and all(x[0] == "i" and x[1] == x[2] for x in v[1]) and \
+                    sum(x[1] << (8 * j) for j, x in enumerate(v[1])) == unit
+                if not okk and not (ret is not None and ret[0] == "fe" and is_zero(fadd(ret, fc2(unit), -1))):
+                    lit = v is not None and v[0] == "arr" and all(x[0] == "i" and x[1] == x[2] for x in v[1])
+                    bad.append(("n=0: the empty %s is not %d" % ("sum" if unit == 0 else "product", unit)) if lit or (ret is not None and ret[0] == "fe") else
+                               "n=0: the result is neither a literal nor a composition of scalar ring operations (undecided form)")
+                continue
+            want = xs[0]
+            for x in xs[1:]:
+                want = op(want, x)
+            if ret is None or ret[0] != "fe" or not is_zero(fadd(ret, want, -1)):
+                bad.append("n=%d: returns %s, expected %s" % (k, show(ret) if ret is not None and ret[0] == "fe" else "a value that is not a composition of scalar ring operations (undecided form)", show(want)))
+        (R.viol if bad else R.ok)("C02.mont", I(nm), bad[0] if bad else "iterators of 0..3 scalars: the result is the ring %s of the items" % ("sum" if unit == 0 else "product"),
+                                  *((F.loc(f),) if bad else ()))
+    R.floor("C02.mont", I("scalar operations decided in the Montgomery-radix domain"), n, 13)
     import kernel_rules as KR
     nk = 0
     for inst, f_, ok, msg in KR.scalar_products(F):
         nk += 1 if f_ else 0
         (R.ok if ok else R.viol)("C02.kernel", I(inst), msg, *(() if ok else (F.loc(f_) if f_ else "",)))
+    nm = 0
+    for inst, f_, ok, msg in KR.montgomery_reduce(F):
+        nm += 1
+        (R.ok if ok else R.viol)("C02.kernel", I(inst), msg, *(() if ok else (F.loc(f_) if f_ else "",)))
     R.floor("C02.kernel", I("scalar product kernels decided exact"), nk, 2)
+    R.floor("C02.kernel", I("Montgomery reductions decided"), nm, 1)
     # byte <-> limb codecs in the bit-provenance domain
     import codec_rules as CR
     nc = 0
